@@ -9,7 +9,6 @@ def opcodeTypes : Nat := 100
 def refFields : List (String × String × String × Bool) := [
   ("Cmpr", "pipeline", "pointer", false),
   ("Cmprlt", "pipeline", "pointer", false),
-  ("FXP", "phase", "pointer", true),
   ("FloPoCo", "entities", "slice", false)
 ]
 
